@@ -200,7 +200,6 @@ def docKeys : List (Name × Name × Bool) := [
     (n!"All input and recurrent weights must be available", n!"constraint_lstm_weights", false),
     (n!"All recurrent weights must be #D", n!"constraint_lstm_weight_dimensions", false),
     (n!"IFM must be int#", n!"constraint_rsqrt_input_int8", false),
-    (n!"Alpha only allowed to be negative if IFM is int# or uint#", n!"constraint_alpha_valid", false),
     (n!"Begin and Size Input tensors must be constant", n!"constraint_slice_inputs_const", false),
     (n!"The following shape/permutations are supported for transpose:", n!"constraint_transpose", false) ]
 
@@ -508,7 +507,6 @@ def paramsAgree (doc live : Params) : List String :=
 def literalNums : List (Name × List Nat) := [
   (n!"constraint_batch_size", [1]),
   (n!"constraint_weights_symmetric", [8, 16, 0, 0]),
-  (n!"constraint_alpha_valid", [8, 8]),
   (n!"constraint_depth_multiplier", [1, 1]),
   (n!"constraint_tconv_stride", [1, 1, 2, 2, 2, 1, 1]),
   (n!"constraint_resize", [1, 1, 1, 2, 4, 8, 1, 1, 2, 4, 8]),
